@@ -269,3 +269,5 @@ def run(ctx) -> None:
     ctx.exhaustive("fixed-project-pattern-list", MOD, "exh_shard", [("",), ("a",), ("a/handlers",), ("util",)],
                    f"fixed project with colliding names x module_path in 4 places x {{exclude, include, {len(GLOBS)} globs, {len(REGEXES)} regexes, {len(GLOBS)} glob pairs}}")
     ctx.random("random-trees-and-options", MOD, "strategy", "check_case", 5000 if ctx.tier == "quick" else 150000)
+    # coverage-guided arm over the same strategy and oracle (atheris; skipped when it is not installed)
+    ctx.fuzz("coverage-guided-projects-with-externals", "strategy", "check_case", runs=300 if ctx.tier == "quick" else 10000, procs=4 if ctx.tier == "quick" else 12)
